@@ -165,14 +165,23 @@ func (r *Report) NotExhaustive(why string) {
 	r.mu.Unlock()
 }
 
-// Violate records a violation; at most 3 per signature and maxViol overall are
+// Violate records a violation; the first of every signature always, then at
+// most 3 per signature and maxViol overall are
 // kept verbatim (all are counted).
 func (r *Report) Violate(sig, detail string, replay any) {
 	r.mu.Lock()
 	defer r.mu.Unlock()
 	r.Counters["violations_raw"]++
 	r.violSigs[sig]++
-	if r.violSigs[sig] > 3 || len(r.Violations) >= r.maxViol {
+	if r.violSigs[sig] > 3 {
+		return
+	}
+	// the first violation of every signature is always kept: repeats of other
+	// signatures (known findings above all) must never crowd out a new one
+	if r.violSigs[sig] > 1 && len(r.Violations) >= r.maxViol {
+		return
+	}
+	if len(r.violSigs) > 5000 {
 		return
 	}
 	r.Violations = append(r.Violations, Violation{Sig: sig, Detail: detail, Replay: replay})
